@@ -252,30 +252,55 @@ def oracle_pools(ctx, obs):
                                       {"kind": "pool_quadrature", "which": name}, {kk: o[kk] for kk in ("threads", "divs", "divs2", "a", "b", "w", name)} | {"single_thread": ref[name]})
         elif k == "pool_spdc":
             ctx.seen(("pool_spdc", o["case"], o["threads"]))
-            ctx.count(f"pool_spdc:threads={o['threads']}")
+            ctx.count(f"pool_spdc:{o['setup'][:12]}:threads={o['threads']}")
             key = ("s", o["case"])
             if o["threads"] == 1 and key not in first:
                 first[key] = o
+                # order: value k of a range array is the value at grid point k of the sequential traversal
+                if o["arrays"]["jsi_range/FrequencySpace"] != o["jsi_pointwise_sequential"]:
+                    ctx.violation("S5", "jsi_range(FrequencySpace) on one thread is not the point-by-point evaluation in grid order", {"kind": "pool_range", "fn": "jsi_range", "space": "FrequencySpace"},
+                                  {"setup": o["setup"], "nx": o["nx"], "ny": o["ny"]})
             ref = first.get(key)
             if not ref:
                 continue
-            inp = {"threads": o["threads"], "setup": "SPDC::default()" if o["case"] % 2 == 0 else "KTP type-2 periodically poled (harness c15::ktp)", "resolution": o["res"]}
-            for name, fn in (("jsa", "jsa_range"), ("jsi", "jsi_range"), ("jsi_ws", "jsi_range(WavelengthSpace)"), ("jsi_sd", "jsi_normalized_range(SumDiffFrequencySpace)")):
-                if o[name] != ref[name]:
-                    i = next(i for i in range(len(ref[name])) if o[name][i] != ref[name][i])
-                    ctx.violation("S5", f"{fn} on {o['threads']} thread(s) is not bit-identical to the single-thread array (first difference at element {i})",
-                                  {"kind": "pool_range", "fn": name}, dict(inp, index=i, got=o[name][i], single_thread=ref[name][i]))
-            for name, fn in (("jsis", "jsi_singles_range (2-D Simpson inside each point)"), ("jsi_nested", "jsi_range with a parallel Simpson quadrature inside each point")):
-                a, b = [H(x) for x in o[name]], [H(x) for x in ref[name]]
-                m = max([abs(x) for x in b] + [Fraction(0)])
-                if len(a) != len(b) or any(not relclose(x, y, TOL_RED, m) for x, y in zip(a, b)):
-                    ctx.violation("S5", f"{fn} on {o['threads']} thread(s) differs from the single-thread array by more than 1e-12 of its maximum", {"kind": "pool_range_reduction", "fn": name}, inp)
-            for name, fn in (("cc", "counts_coincidences"), ("cs", "counts_singles_signal"), ("ci", "counts_singles_idler"), ("hom0", "hom_rate at the dip"),
-                             ("hom1", "hom_rate off the dip"), ("vis", "hom_visibility")):
-                a, b = H(o[name]), H(ref[name])
-                if not relclose(a, b, TOL_RED, max(abs(b), Fraction(1, 1000) if name in ("hom0", "hom1", "vis") else Fraction(1, 10**300))):
-                    ctx.violation("S5", f"{fn} on {o['threads']} thread(s) = {float(a)!r} differs from the single-thread result {float(b)!r} by more than 1e-12 relative",
-                                  {"kind": "pool_reduction", "fn": name}, dict(inp, got=o[name], single_thread=ref[name]))
+            inp = {"threads": o["threads"], "setup": o["setup"], "grid": f"optimum_range endpoints, {o['nx']} x {o['ny']} points (non-square)", "integrator": f"Simpson {{ divs: {o['divs']} }}"}
+            for name, arr in o["arrays"].items():
+                fn, _, space = name.partition("/")
+                rarr = ref["arrays"][name]
+                if len(arr) != len(rarr):
+                    ctx.violation("S5", f"{name} on {o['threads']} thread(s) returns {len(arr)} values, {len(rarr)} on one thread", {"kind": "pool_range", "fn": fn, "space": space}, inp)
+                    continue
+                idx = [i for i in range(len(arr)) if arr[i] != rarr[i]]
+                if not idx:
+                    continue
+                i = idx[0]
+                is_series = "hom" in fn
+                reduces = fn.startswith("jsi_singles") or "Simpson divs=130" in fn     # the point function itself contains a parallel quadrature
+                if is_series or reduces:
+                    worst = max(abs(H(arr[j]) - H(rarr[j])) / max(abs(H(rarr[j])), Fraction(1, 1000) if is_series else Fraction(1, 10**300)) for j in idx)
+                    if any(H(rarr[j]) == 0 for j in idx) or worst > TOL_RED:
+                        ctx.violation("S5", f"{name} on {o['threads']} thread(s): element {i} = {f64_of_hex(arr[i])!r} vs {f64_of_hex(rarr[i])!r} on one thread: more than 1e-12 relative apart (worst {float(worst):.2e})",
+                                      {"kind": "pool_range_reduction" if reduces else "pool_reduction", "fn": fn, "space": space}, dict(inp, index=i, got=arr[i], single_thread=rarr[i]))
+                    elif reduces:
+                        # within the reduction tolerance, but the property text says bit-identical arrays: reported as a (low-severity) finding
+                        ctx.violation("S5", f"{fn} is not bit-identical across schedules: on {o['threads']} thread(s) {len(idx)} of {len(arr)} elements differ from the one-thread array in the last bits "
+                                            f"(element {i}: {f64_of_hex(arr[i])!r} vs {f64_of_hex(rarr[i])!r}, worst relative difference {float(worst):.2e} <= 1e-12): each point value is itself a parallel "
+                                            f"quadrature (simpson2d over 1-D producers / Simpson with >= 128 slices) whose rounding depends on the split tree",
+                                      {"kind": "range_not_bit_identical", "cause": "nested_parallel_quadrature"},
+                                      dict(inp, fn=fn, space=space, index=i, got=arr[i], single_thread=rarr[i], elements_differing=len(idx), worst_relative=float(worst),
+                                           call=f"JointSpectrum::{fn.split('[')[0]}(<{space}>) inside rayon::ThreadPoolBuilder::new().num_threads({o['threads']}).build().install(..) vs num_threads(1)"))
+                else:
+                    ctx.violation("S5", f"{name} on {o['threads']} thread(s) is not bit-identical to the one-thread array: element {i} = {f64_of_hex(arr[i])!r} vs {f64_of_hex(rarr[i])!r} "
+                                        f"({len(idx)} of {len(arr)} elements differ)", {"kind": "pool_range", "fn": fn, "space": space}, dict(inp, index=i, got=arr[i], single_thread=rarr[i]))
+            # the flat-list representations visit the same points: same bits as the grid, for the deterministic point functions
+            for fn in ("jsa_range", "jsa_normalized_range", "jsi_range", "jsi_normalized_range"):
+                if o["arrays"][fn + "/SignalIdlerFrequencyArray"] != o["arrays"][fn + "/FrequencySpace"] or o["arrays"][fn + "/SignalIdlerWavelengthArray"] != o["arrays"][fn + "/WavelengthSpace"]:
+                    ctx.violation("S5", f"{fn} over the flat (signal, idler) list differs from {fn} over the equivalent grid on {o['threads']} thread(s)", {"kind": "pool_range_flat", "fn": fn}, inp)
+            for name, v in o["scalars"].items():
+                a_, b_ = H(v), H(ref["scalars"][name])
+                if not relclose(a_, b_, TOL_RED, max(abs(b_), Fraction(1, 1000) if "hom" in name else Fraction(1, 10**300))):
+                    ctx.violation("S5", f"{name} on {o['threads']} thread(s) = {float(a_)!r} differs from the single-thread result {float(b_)!r} by more than 1e-12 relative",
+                                  {"kind": "pool_reduction", "fn": name}, dict(inp, got=v, single_thread=ref["scalars"][name]))
 
 
 def log_tree(splits, lo, hi):
@@ -414,6 +439,10 @@ def correspondence(ctx, obs, quick):
     # canary: a deliberately wrong expectation (values rotated by one position, on a 5-point dyadic range split 2|3) must be rejected
     canary = ("canary", f"check_tree1d {cq(0)} {cq(4)} 5 (Node 2 Leaf Leaf) [{cq(1)}; {cq(2)}; {cq(3)}; {cq(4)}; {cq(0)}] {cq(0)}")
     res = run_compute_cases(ctx, "C15", IMPORTS, "", exprs + [canary], shards=NCPU)
+    missing = [(c, e) for c, e in exprs + [canary] if c not in res]
+    if missing:    # a shard that died (time-out under load): evaluate its cases once more before calling anything a disagreement
+        ctx.log(f"   {len(missing)} evaluations without a result: retried")
+        res.update(run_compute_cases(ctx, "C15retry", IMPORTS, "", missing, shards=min(NCPU, max(1, len(missing) // 4))))
     if res.get("canary", "").replace(" ", "").replace("%nat", "") != "Ok[0;1;2;3;4]":
         ctx.proof_failures.append(("Cases/C15", "canary", f"the model comparison accepted a deliberately wrong observation: {res.get('canary')}"))
     nok = 0
@@ -488,10 +517,11 @@ def run(ctx):
     want = replay_setup(ctx)
     quick = ctx.tier == "quick"
     binp = build_harness(ctx)
-    msgs, spans = regen(ctx, ["grid", "c15_reductions"])
-    ctx.cov["translated_spans"] = {k: v for k, v in spans.items() if k.startswith("c15_reductions.") or k.startswith("grid.") and any(w in k for w in ("par", "it1d", "it2d", "steps_value", "steps2d_value"))}
+    msgs, spans = regen(ctx, ["grid", "c15_reductions", "c15_parsites", "ranges"])
+    ctx.cov["translated_spans"] = {k: v for k, v in spans.items() if k.startswith("c15_reductions.") or k.startswith("c15_parsites.") or k.startswith("ranges.") or k.startswith("grid.") and any(w in k for w in ("par", "it1d", "it2d", "steps_value", "steps2d_value"))}
     for m in msgs:
-        ctx.proof_failures.append(("Gen/C15_Reductions.v" if "generator c15_reductions" in m else "Gen/Grid.v", "translator", m))
+        gf = next((f for g, f in (("c15_reductions", "Gen/C15_Reductions.v"), ("c15_parsites", "Gen/C15_ParSites.v"), ("ranges", "Gen/Ranges.v")) if f"generator {g}]" in m), "Gen/Grid.v")
+        ctx.proof_failures.append((gf, "translator", m))
     proved = (not msgs) and prove(ctx, "C15", extra_targets=["Model/GridCheck.vo", "Props/C15_pins.vo", "Model/C15_Bridge.vo"])
     tier = "thorough" if not quick else "quick"
     obs = run_harness(ctx, binp, ["c15", ctx.seed, 2 if quick else 10, "trees", tier], timeout=900)
@@ -500,7 +530,7 @@ def run(ctx):
     oracle_trees(ctx, obs)
     ne, ng = selftest(ctx, obs)
     ctx.log(f"S5 oracle self-test: {ng}/{ne} corrupted observations flagged")
-    pobs = run_harness(ctx, binp, ["c15", ctx.seed, 1 if quick else 4, "pools", tier], timeout=2400)
+    pobs = run_harness(ctx, binp, ["c15", ctx.seed, 2 if quick else 4, "pools", tier], timeout=2400)
     if not any(o["kind"] in ("done", "timeout") for o in pobs):
         ctx.violation("S5", "harness did not finish the thread-pool runs", {"kind": "crash"}, {"tail": pobs[-1] if pobs else None})
     oracle_pools(ctx, pobs)
@@ -526,9 +556,21 @@ def run(ctx):
         ctx.log(f"S5 oracle self-test (Simpson): dropped last node flagged at divs {sorted(flagged)}")
         if flagged != expect:
             ctx.note(f"oracle self-test: a Simpson parallel branch dropping its last node was flagged at {sorted(flagged)}, expected {sorted(expect)}")
-    for o in obs:
-        if o["kind"] == "tree1d" and o["tree"] != "L" and "vals" in o and len(o["vals"]) >= 3:
-            ctx.sample({"tree": o["tree"][:80], "leaf_sizes": o["lens"][:12], "first_values": [f64_of_hex(x) for x in o["vals"][:3]]}, limit=3)
+    # samples: one deep exhaustive tree, one rayon-shaped tree on a long range, one random deep tree, one 2-D tree, one pool run
+    roots_ = {o["root"]: o for o in obs if o["kind"] in ("root1d", "root2d")}
+    def pick(pred):
+        return next((o for o in obs if o["kind"] in ("tree1d", "tree2d") and not o.get("panic") and pred(o, roots_[o["root"]])), None)
+    for o in (pick(lambda o, r: o["kind"] == "tree1d" and r["mode"] == "all" and r["n"] >= 6 and tree_depth(parse_tree(o["tree"])) >= 4),
+              pick(lambda o, r: o["kind"] == "tree1d" and r["mode"] == "random" and r["n"] >= 1000 and tree_depth(parse_tree(o["tree"])) >= 5),
+              pick(lambda o, r: o["kind"] == "tree2d" and r["mode"] == "random" and tree_depth(parse_tree(o["tree"])) >= 5)):
+        if o is not None:
+            r = roots_[o["root"]]
+            ctx.sample({"producer": "ParIterator1D" if o["kind"] == "tree1d" else "ParIterator2D",
+                        "root": {kk: (f64_of_hex(vv) if isinstance(vv, str) and vv.startswith("0x") else vv) for kk, vv in r.items() if kk in ("s", "e", "n", "x0", "x1", "nx", "y0", "y1", "ny", "cls")},
+                        "tree": o["tree"][:160], "depth": tree_depth(parse_tree(o["tree"])), "leaf_sizes": o["lens"][:16], "leaves_drained_from_back": o["back"]}, limit=5)
+    po = next((o for o in pobs if o["kind"] == "pool_spdc" and o["threads"] == 7), None)
+    if po:
+        ctx.sample({"pool": "7 threads", "setup": po["setup"], "grid": [po["nx"], po["ny"]], "arrays_compared": len(po["arrays"]), "scalars": {k: f64_of_hex(v) for k, v in list(po["scalars"].items())[:4]}}, limit=5)
     if not quick:
         # debug profile (overflow checks on, as `cargo test` builds): the admissible trees must not trip a usize overflow
         try:
@@ -563,8 +605,11 @@ def run(ctx):
         "reductions (sums) independent of the tree": "proved in any monoid (R, C), also under enumerate(); tied to the code by the generated call-site table (counts, hom_rate, simpson, "
                                                      "simpson2d: every parallel site classified and pinned; simpson's parallel branch proved to sum the same nodes through the same closures as its "
                                                      "sequential branch); 1e-12 float clause validated_only on pools of 1..16 threads; Simpson checked exactly on cubics across the 128 threshold",
-        "range functions bit-identical across schedules": "follows from collect theorem for deterministic point functions; validated on pools; arrays whose point function "
-                                                          "contains a parallel quadrature (singles) are compared to 1e-12",
+        "range functions bit-identical across schedules": "census of every parallel call site proved sound (C15_par_sites_sound: each descriptor classifies to a shape whose driver theorem holds); "
+                                                          "all eight range functions x five space representations compared element-wise bit-exactly on pools of 1..16 threads; "
+                                                          "KNOWN FINDING F16: the singles ranges (and ranges with Simpson >= 128 slices) are NOT bit-identical (each point is a parallel quadrature); "
+                                                          "they are additionally held to 1e-12 per element",
+        "detailed reduction-site table (sources, bindings, closures)": "pinned, not proved (C15_call_sites)",
         "rayon's scheduler": "modelled as any split tree; additionally bridge with an explicit steal oracle (C15_bridge_any_steals), validated against the real rayon via a logging producer",
         "nested parallel regions complete": "validated, not proved (time-limited runs on pools of 1..16 threads)",
     }
